@@ -503,6 +503,10 @@ func (pk *Packet) ConnectValidate() Code {
 		return ErrProtocolViolationWillFlagSurplusRetain // [MQTT-3.1.2-13]
 	}
 
+	if !pk.Connect.WillFlag && pk.Connect.WillQos != 0 {
+		return ErrProtocolViolationQosOutOfRange // [MQTT-3.1.2-11] without a will the will qos must be 0
+	}
+
 	return CodeSuccess
 }
 
